@@ -33,6 +33,13 @@ class FSM:
                 k = rng.choice(["mkdir", "create_dir_all", "write", "read", "unlink", "rmdir", "remove_dir_all", "chmod",
                                 "symlink", "copy", "readdir", "stat", "lstat", "exists", "is_dir", "is_file"])
                 op = {"op": k, "p": rand_path(rng)}
+                if k == "remove_dir_all":
+                    # address an entry of the generated tree directly (all its proper prefixes are real
+                    # directories): removing a directory through a symlink that lives inside it is a
+                    # self-referential corner std handles by its own rules and the modelled code never does
+                    op["p"] = list(rng.choice(init)["p"]) + ([list(b"nope")] if rng.random() < 0.1 else [])
+                    if op["p"] == [list(b"r")]:
+                        op["p"] = [list(b"r"), list(b"a")]
                 if k == "write":
                     op["c"] = [rng.choice([88, 89]) for _ in range(rng.randint(0, 2))]
                 if k == "chmod":
